@@ -39,7 +39,8 @@ def _d3(version):
 
 
 QTEXT = {"q1": "$[?@.a == $.x]", "q2": "$[?f(@.a)]", "q3": "$..[?@[?@ == $.x]]",
-         "q4": "$[?match(@.s, 'a.') || search(@.s, 'a.')]", "q5": "$.k3[2]", "q6": "$[?@.a == ]", "q7": "$..s"}
+         "q4": "$[?match(@.s, 'a.') || search(@.s, 'a.')]", "q5": "$.k3[2]", "q6": "$[?@.a == ]", "q7": "$..s",
+         "q8": "$[?f(@.a) == 1]"}
 
 
 class World:
@@ -58,7 +59,16 @@ class World:
             def __call__(self, _arg):
                 return self.body == "ct"
 
+        class ConstV(FilterFunction):          # the subclass's own 'f': another signature under the same name
+            arg_types = [ExpressionType.VALUE]
+            return_type = ExpressionType.VALUE
+            body = "v1"
+
+            def __call__(self, _arg):
+                return 1
+
         self.Const = Const
+        self.ConstV = ConstV
         # reset what the model knows about the module-level environment
         jp.DEFAULT_ENV.function_extensions.pop("f", None)
         self.envs = {"mod": None, "e1": jp.JSONPathEnvironment(), "e2": None}
@@ -128,7 +138,7 @@ class World:
             self.pristine[entry["d"]] = copy.deepcopy(doc)
             return None
         if op == "newsub":
-            Const = self.Const
+            ConstV = self.ConstV
 
             class Sub(jp.JSONPathEnvironment):
                 max_int_index = 1
@@ -136,10 +146,10 @@ class World:
 
                 def setup_function_extensions(self):
                     super().setup_function_extensions()
-                    self.function_extensions["f"] = Const("cf")
+                    self.function_extensions["f"] = ConstV()
 
             self.envs["e2"] = Sub()
-            self.model_f["e2"] = "cf"
+            self.model_f["e2"] = "v1"
             return None
         raise core.MachineryError(f"unknown op {op}")
 
@@ -265,6 +275,9 @@ def history_independence(chk: core.Check, tier: str, seed: int) -> None:
     recs += [{"op": "repeat", "q": core.enc_text(q), "doc": core.enc_value([]), "nospec": True, "results": res}
              for (q, k), res in results.items() if k == "deep"]
     recs += common.stream_records(jp, rounds=12 if tier == "quick" else 100)
+    # "the same nodelist every time it is applied to equal data": one compiled query, the same document OBJECT edited in place between
+    # applications - what it answers must be what it answers on any equal document (the specification's value for the content now)
+    recs += common.inplace_edit_records(jp, common.ROOT_QUERIES + ["$.items[?count($.items[*]) == 5]", "$[?count($..*) > 12]"], rounds=6)
     for r in recs:
         chk.nontrivial.add(("repeat", tuple(r["q"]), str(r["doc"])[-40:]))
     chk.notes["history_independence_records"] = len(recs)
